@@ -7,6 +7,8 @@ import (
 	"strings"
 
 	"golang.org/x/tools/go/ssa"
+
+	"manticheck/internal/report"
 )
 
 // C14 extension `R4b-payload-cond` (added after an independently seeded change
@@ -140,6 +142,34 @@ func c14PayloadCond(c *Ctx) {
 	recv := fn.Params[0]
 	name := c14PkgCrypto + ".(*RSAKeyMaterial).ToBytes"
 	found := map[string]int{}
+	// The scan below looks for append(…, F...) and the branches that control
+	// it. The lane interpretation of ToBytes on key materials with one prime
+	// missing, both missing and both present decides the same question — are
+	// F's bytes where the header says — for any way of emitting them (copy
+	// into a pre-sized buffer, a helper, …).
+	mark := len(r.Obls)
+	defer func() {
+		x := &c14{Ctx: c}
+		var sem map[string]c14V
+		func() {
+			defer func() {
+				if e := recover(); e != nil {
+					sem = nil
+				}
+			}()
+			sem = x.semRsaEncoder(fn)
+		}()
+		for _, f := range []string{"Modulus", "Prime1", "Prime2"} {
+			v, ok := sem[f]
+			if !ok {
+				v = c14Na("internal error in the lane interpretation")
+			}
+			pre := fmt.Sprintf("%s: emission of %s", name, f)
+			x.arbitrate(mark, func(o *report.Obligation) bool {
+				return o.Rule == rule && (o.Construct == pre || strings.HasPrefix(o.Construct, pre+" #"))
+			}, v)
+		}
+	}()
 	for _, b := range fn.Blocks {
 		for _, in := range b.Instrs {
 			call, ok := in.(*ssa.Call)
@@ -221,6 +251,17 @@ func c14Verbatim(c *Ctx) {
 	}
 	name := c14Pkg + ".(*DNWithBinary).Parse"
 	n := 0
+	// the walk below allows conversions, Split/SplitN and part selection only;
+	// the lane interpretation of Parse(ToString(d)) on names with surrounding
+	// white space, mixed case and embedded separators decides "verbatim" for
+	// any other spelling (Cut, Index + re-slice, …)
+	mark := len(r.Obls)
+	defer func() {
+		if toS := p.Func(c14Pkg, "DNWithBinary", "ToString"); toS != nil && toS.Blocks != nil {
+			x := &c14{Ctx: c}
+			x.arbitrate(mark, func(o *report.Obligation) bool { return o.Rule == rule }, x.dnSem(fn, toS))
+		}
+	}()
 	for _, b := range fn.Blocks {
 		for _, in := range b.Instrs {
 			st, ok := in.(*ssa.Store)
